@@ -370,6 +370,13 @@ func boundaryMutants(sd seedDoc) []Body {
 	for _, g := range []string{"garbage", "<D:extra xmlns:D=\"DAV:\"/>", "<", "\x00\x01", "</x>", "   \n"} {
 		l = append(l, Body{Data: append(append([]byte{}, doc...), g...), Doc: sd.Fam, Mut: "trailing-garbage"})
 	}
+	// Prologs: XML declarations naming every kind of encoding / version /
+	// standalone value, document type declarations, processing instructions,
+	// comments and byte-order marks in front of the (valid) root. Whether a
+	// server can read a declared encoding is its business: not labelled.
+	for _, pl := range xmltree.Prologs {
+		l = append(l, Body{Data: append([]byte(pl), doc...), Doc: sd.Fam, Mut: "prolog"})
+	}
 	switch sd.Fam {
 	case "propfind":
 		t := sd.Tree.Clone()
